@@ -38,7 +38,7 @@ pub enum After {
     /// while the session idles, undecryptable packets in the peer's name keep arriving from its address
     /// at intervals shorter than the timeout; more than 1.3 x timeout after the last genuine use V submits
     VSubmitsAfterKnocks,
-    /// before the idle period V sends the peer a request that is lost; after the idle period V's
+    /// before the idle period V sends the peer a request that is lost; half a timeout later V's
     /// request timer fires and V retransmits it (needs request_retries >= 2) - re-sending old
     /// ciphertext is no use of the session - and then the peer sends V a request under its session
     PeerSubmitsAfterRetransmission,
@@ -286,6 +286,8 @@ async fn run(case: &Case, rep: &mut CaseReport) -> Option<(String, String)> {
                         rep.class("request-to-a-peer-with-an-expired-session-lost(no new handshake)");
                     }
                     _ => {
+                        // the request was encrypted under the session (if it was alive): a use of it
+                        last_touch.insert(p, Instant::now());
                         limbo.insert(p);
                     }
                 }
@@ -303,6 +305,11 @@ async fn run(case: &Case, rep: &mut CaseReport) -> Option<(String, String)> {
                     continue;
                 }
                 let p = 1 + (p as usize % n_peers as usize);
+                if cut_at.contains_key(&p) {
+                    // an exchange with this peer was cut short: V may still hold a request for it whose
+                    // retransmissions (old ciphertext, no use of the session) would be mistaken for uses
+                    continue;
+                }
                 if case.nat & (1 << (p - 1)) != 0 && matches!(then, After::VSubmits | After::VSubmitsThenStale | After::VSubmitsHandshakeLost | After::VSubmitsAfterKnocks) {
                     continue;
                 }
@@ -341,8 +348,22 @@ async fn run(case: &Case, rep: &mut CaseReport) -> Option<(String, String)> {
                 let need = Duration::from_millis(SHORT_TIMEOUT_MS * 13 / 10 + 5);
                 let mut last_knock = Instant::now();
                 let mut knocks = 0u32;
+                let mut retransmitted = false;
                 while t0.elapsed() <= need {
                     std::thread::sleep(Duration::from_millis(5));
+                    if then == After::PeerSubmitsAfterRetransmission && !retransmitted && t0.elapsed() >= Duration::from_millis(SHORT_TIMEOUT_MS / 2) {
+                        // half a session timeout after the request went out V's request timer fires (virtual
+                        // time): the stored packet is sent again (and lost again). The session was last USED
+                        // when the request was encrypted
+                        retransmitted = true;
+                        let log0 = w.log.len();
+                        crate::engines::wire_interp::advance(&mut w, Duration::from_millis(REQUEST_TIMEOUT_MS * 6 / 5)).await;
+                        if w.log[log0..].iter().any(|d| d.from_node == Some(0) && d.to_addr == w.nodes[p].addr) {
+                            rep.class("request-retransmitted-during-the-idle-period");
+                        }
+                        w.pool.clear();
+                        cut_at.insert(p, w.now_ms());
+                    }
                     if then == After::VSubmitsAfterKnocks && last_knock.elapsed() >= Duration::from_millis(SHORT_TIMEOUT_MS / 3) {
                         last_knock = Instant::now();
                         knocks += 1;
@@ -352,16 +373,6 @@ async fn run(case: &Case, rep: &mut CaseReport) -> Option<(String, String)> {
                         w.step += 1;
                         w.pool.clear();
                     }
-                }
-                if then == After::PeerSubmitsAfterRetransmission {
-                    // V's request timer fires: the stored packet is sent again (and lost again)
-                    let log0 = w.log.len();
-                    crate::engines::wire_interp::advance(&mut w, Duration::from_millis(REQUEST_TIMEOUT_MS * 6 / 5)).await;
-                    if w.log[log0..].iter().any(|d| d.from_node == Some(0) && d.to_addr == w.nodes[p].addr) {
-                        rep.class("request-retransmitted-after-the-idle-period");
-                    }
-                    w.pool.clear();
-                    cut_at.insert(p, w.now_ms());
                 }
                 if knocks > 0 {
                     rep.class("undecryptable-packets-from-the-peer's-address-during-the-idle-period");
